@@ -38,11 +38,13 @@ pub struct Script {
     /// false: the reply announces no Content-Length (chunked or close-delimited framing): `content_length()` is None
     /// and the end of the body is the end of the stream
     pub announce_length: bool,
+    /// further response headers (name, value) as the server sends them; names compare case-insensitively
+    pub headers: Vec<(String, String)>,
 }
 
 impl Default for Script {
     fn default() -> Self {
-        Script { status: 200, body: Vec::new(), transport: Transport::Refused, splits: vec![], cut_at: 0, latency: [0, 0, 0], announce_length: true }
+        Script { status: 200, body: Vec::new(), transport: Transport::Refused, splits: vec![], cut_at: 0, latency: [0, 0, 0], announce_length: true, headers: vec![] }
     }
 }
 
@@ -66,6 +68,9 @@ pub enum EvKind {
     BodyComplete,
     Closed(&'static str),
     TaskCompleted,
+    /// a task went to sleep on the virtual clock (microseconds) / its timer fired: not a transport event
+    TimerSet(u64),
+    TimerFired,
 }
 
 #[derive(Clone, Debug)]
@@ -111,6 +116,8 @@ enum Step {
     Chunk(usize, usize),
     BodyEnd,
     CloseMidBody,
+    /// queue entries of this kind carry a timer index instead of a connection index
+    Timer,
 }
 
 #[derive(Default)]
@@ -125,6 +132,8 @@ struct State {
     clients_created: u64,
     bodies: Vec<Vec<u8>>, // per conn: the script body
     announced: Vec<bool>, // per conn: was a Content-Length announced
+    resp_headers: Vec<Vec<(String, String)>>, // per conn
+    timers: Vec<(usize, bool)>, // (task, fired)
 }
 
 thread_local! {
@@ -226,6 +235,7 @@ pub fn open_connection(request: Request) -> usize {
         }
         s.bodies.push(body);
         s.announced.push(script.announce_length);
+        s.resp_headers.push(script.headers.clone());
         id
     })
 }
@@ -264,6 +274,40 @@ pub fn content_length(conn: usize) -> Option<u64> {
     })
 }
 
+/// The response headers of a delivered head (scripted ones plus Content-Length when announced).
+pub fn response_headers(conn: usize) -> Vec<(String, String)> {
+    SIM.with(|s| {
+        let s = s.borrow();
+        let mut h = s.resp_headers.get(conn).cloned().unwrap_or_default();
+        if s.announced.get(conn).copied().unwrap_or(true) {
+            if let Some(b) = s.bodies.get(conn) {
+                h.push(("content-length".into(), b.len().to_string()));
+            }
+        } else {
+            h.push(("transfer-encoding".into(), "chunked".into()));
+        }
+        h
+    })
+}
+
+/// `sleep` on the virtual clock: registers a timer for the current task, returns its index.
+pub fn set_timer(us: u64) -> usize {
+    SIM.with(|s| {
+        let mut s = s.borrow_mut();
+        let task = s.current_task;
+        let id = s.timers.len();
+        s.timers.push((task, false));
+        record(&mut s, task, None, EvKind::TimerSet(us));
+        s.seq += 1;
+        let (at, q) = (s.now.saturating_add(us), s.seq);
+        s.queue.push(Reverse((at, q, id, Step::Timer)));
+        id
+    })
+}
+pub fn timer_fired(id: usize) -> bool {
+    SIM.with(|s| s.borrow().timers.get(id).is_some_and(|t| t.1))
+}
+
 pub fn poll_body(conn: usize) -> BodyState {
     SIM.with(|s| {
         let s = s.borrow();
@@ -284,8 +328,15 @@ fn deliver_next() -> Option<usize> {
         if at > s.now {
             s.now = at; // nothing is runnable before: jump the virtual clock
         }
+        if step == Step::Timer {
+            s.timers[id].1 = true;
+            let task = s.timers[id].0;
+            record(&mut s, task, None, EvKind::TimerFired);
+            return Some(task);
+        }
         let task = s.conns[id].task;
         match step {
+            Step::Timer => {}
             Step::Refuse => {
                 s.conns[id].head = Some(Err("error sending request: connection refused".into()));
                 record(&mut s, task, Some(id), EvKind::Refused);
@@ -319,7 +370,7 @@ fn deliver_next() -> Option<usize> {
 fn events_pending_for(task: usize) -> bool {
     SIM.with(|s| {
         let s = s.borrow();
-        s.queue.iter().any(|Reverse((_, _, id, _))| s.conns[*id].task == task)
+        s.queue.iter().any(|Reverse((_, _, id, st))| if *st == Step::Timer { s.timers[*id].0 == task } else { s.conns[*id].task == task })
     })
 }
 fn events_pending() -> bool {
